@@ -167,9 +167,6 @@ func c07Emissions(c *Case, r *RunResult, init []world.FileState, soloPrint func(
 			if !ok {
 				continue
 			}
-			if bytes.Contains(o.Data, []byte("\r")) {
-				continue
-			}
 			res, err := ApplyUnified(string(o.Data), df)
 			if err != nil {
 				return nil, "diff-does-not-apply: " + err.Error()
